@@ -1,6 +1,6 @@
 (* Model/Dispatch.v -- the single extracted entry point.  op numbers: <property>*100 + k *)
 From Coq Require Import ZArith List Bool.
-From B2Z Require Import Base.Prims Base.Sx Model.Partitions Model.IndexParse Model.BinArith Model.Schema Model.Overlap Model.Icf Model.RegionIndex.
+From B2Z Require Import Base.Prims Base.Sx Model.Partitions Model.IndexParse Model.BinArith Model.Schema Model.Overlap Model.Icf Model.RegionIndex Model.Plink.
 Import ListNotations.
 Open Scope Z_scope.
 
@@ -174,6 +174,20 @@ Definition d_C12 (k : Z) (arg : sx) : sx :=
   | _, _ => err_sx 2
   end.
 
+(* ---- C16 ---- *)
+Definition d_C16 (k : Z) (arg : sx) : sx :=
+  match k, arg with
+  | 0, L [bytes; A n; A m] =>
+      match as_ZL bytes with
+      | Some b => match decode_bed b (Z.to_nat n) (Z.to_nat m) with
+                  | Some codes => L [A 1; L (map (fun row => L (map (fun c => let p := call c in L [A (fst p); A (snd p)]) row)) codes)]
+                  | None => L [A 0] end
+      | None => err_sx 1 end
+  | 1, L [rows; pads] =>
+      match as_ZLL rows, as_ZLL pads with Some r, Some p => of_Zs (encode_bed r p) | _, _ => err_sx 1 end
+  | _, _ => err_sx 2
+  end.
+
 Definition dispatch (op : Z) (arg : sx) : sx :=
   let p := op / 100 in
   let k := op mod 100 in
@@ -184,5 +198,6 @@ Definition dispatch (op : Z) (arg : sx) : sx :=
   | 10 => d_C10 k arg
   | 12 => d_C12 k arg
   | 13 => d_C13 k arg
+  | 16 => d_C16 k arg
   | _ => err_sx 3
   end.
